@@ -90,6 +90,11 @@ Lemma sends_hold_no_lock :
   forallb (fun o => sends_unlocked op [] (flat op (template o))) all_ops = true.
 Proof. vm_compute. reflexivity. Qed.
 
+Example blocking_ops_exist :
+  existsb (fun o => existsb (fun a => match a with TRecv _ | TExitIfClosed _ => true | _ => false end)
+                            (flat op (template o))) all_ops = true.
+Proof. vm_compute. reflexivity. Qed.
+
 (* ====================================================================== *)
 (* Lockset: statement at full strength, refutation, exact failing class     *)
 (* ====================================================================== *)
